@@ -563,7 +563,7 @@ impl Converter<Commit, Named<Commit>> for Namer {
     ) -> Result<Arc<str>, Self::Error> {
         let hole_idx = self.other_idx;
         self.other_idx += 1;
-        Ok(Arc::from(format!("hole {hole_idx}")))
+        Ok(Arc::from(format!("hole{hole_idx}")))
     }
 
     fn convert_data(
